@@ -38,6 +38,11 @@ public:
 
    virtual bool HasBytesToOutput() const;
 
+   /** Overridden to also discard any partially received frame, pending payload and partially sent frame, so that
+     * the next bytes received are parsed as the start of a new frame.  (The handshake phase is left as it is)
+     */
+   virtual void Reset();
+
    /** Returns true iff our HTTP->WebSocket upgrade handshake is still in progress. */
    bool IsHandshakeInProgress() const {return ((_handshakeState == WEBSOCKET_HANDSHAKE_AS_SERVER)||(_handshakeState == WEBSOCKET_HANDSHAKE_AS_CLIENT));}
 
